@@ -65,7 +65,7 @@ def complete(kinds):
     return depth == 0 and any(k != END for k in kinds)
 
 
-def build(kinds, rot=0):
+def build(kinds, rot=0, xml=False):
     """-> (doc, elements in document order)"""
     parts = []
     pos = 0
@@ -107,9 +107,10 @@ def build(kinds, rot=0):
             break
         n += 1
         if k == OPEN:
-            stack.append(add('d%d' % n, pos, [], '>'))
+            # in XML mode every second plain element carries an HTML void name: it is an ordinary paired element there
+            stack.append(add(('br' if (n + rot) % 2 else 'img') if (xml and n % 2 == 0) else 'd%d' % n, pos, [], '>'))
         elif k == OPENA:
-            stack.append(add('e%d' % n, pos, [(' ', 'a', '"x>y"'), (' ', 'class', '"c1  c2"'), (' ', 'b', 'c'), ('\n', 'g', None)], ' >'))
+            stack.append(add('e%d' % n, pos, [(' ', 'a', '"x\'>y"'), (' ', 'class', '"c1  c2"'), (' ', 'b', 'c'), ('\n', 'g', None)], ' >'))
         elif k == CLOSE:
             e = stack.pop()
             s = pos
@@ -136,7 +137,9 @@ def build(kinds, rot=0):
             else:
                 emit(' t> ')
         elif k == SPECIAL:
-            if (n + rot) % 2:
+            if (n + rot) % 3 == 2:
+                add('script', pos, [(' ', 'src', '"a.js"')], '/>')      # self-closed: no body to skip
+            elif (n + rot) % 2:
                 e = add('script', pos, [], '>')
                 emit('if(a<b){"</p>"}')
                 s = pos
